@@ -73,7 +73,7 @@ def gen_case(rng):
         else:
             instruments.append({'name': nm, 'kind': k, 'values': [round(rng.uniform(-10, 10), 3)]})
     # allow-list
-    src = rng.choice(['absent', 'absent', 'empty_env', 'env', 'env', 'file', 'file', 'both', 'file_empty', 'file_broken'])
+    src = rng.choice(['absent', 'absent', 'empty_env', 'env', 'env', 'file', 'file', 'both', 'file_empty', 'file_broken', 'file_empty_env', 'file_nokey_env', 'file_broken_env'])
     entries = []
     classes = set()
     for _ in range(rng.randint(0, 4)):
@@ -96,6 +96,14 @@ def gen_case(rng):
             entries.append(gen_name(rng)); classes.add('unrelated')
         else:
             entries.append(rng.choice(names) + '_histogram' if names else 'q'); classes.add('hist-key')
+    # a pattern with the star in the middle, and instruments whose names are SHORTER than head+tail (head and tail overlap)
+    if rng.random() < 0.25:
+        h, t = rng.choice(NAME_PARTS), rng.choice(NAME_PARTS)
+        sep = rng.choice(['_', '.'])
+        entries.append(f'{h}{sep}*{sep}{t}'); classes.add('head*tail')
+        for nm, kind_ in ((f'{h}{sep}{t}', 'counter'), (f'{h}{sep}x{sep}{t}', 'gauge')):
+            if nm.lower() not in [x['name'].lower() for x in instruments]:
+                instruments.append({'name': nm, 'kind': kind_, 'values': [1, 2]} if kind_ == 'counter' else {'name': nm, 'kind': kind_, 'values': [1.5]})
     ws = rng.random() < 0.3
     return {'instruments': instruments, 'src': src, 'entries': entries, 'ws': ws, 'classes': sorted(classes)}
 
@@ -112,26 +120,30 @@ def apply_allowlist_env(case, tmpdir, env):
     if src == 'empty_env':
         env['OF_SAFE_METRICS'] = ' , ,' if case['ws'] else ''
         return expected
-    if src in ('env', 'both'):
+    if src in ('env', 'both', 'file_empty_env', 'file_nokey_env', 'file_broken_env'):
         items = [pad(e) for e in entries]
         if case['ws']:
             items.insert(len(items) // 2, '  ')
         env['OF_SAFE_METRICS'] = ','.join(items)
         expected = set(e.strip() for e in entries if e.strip())
-    if src in ('file', 'both', 'file_empty', 'file_broken'):
+    if src in ('file', 'both', 'file_empty', 'file_broken', 'file_empty_env', 'file_nokey_env', 'file_broken_env'):
         path = os.path.join(tmpdir, 'safe.yaml')
         with open(path, 'w') as f:
-            if src == 'file_broken':
+            if src in ('file_broken', 'file_broken_env'):
                 f.write('safe_metrics: [unclosed\n  - : :\n')
-            elif src == 'file_empty':
+            elif src in ('file_empty', 'file_empty_env'):
                 f.write('safe_metrics: []\nopenlineage:\n  url: null\n')
+            elif src == 'file_nokey_env':
+                f.write('openlineage:\n  url: null\n  heartbeat_interval: 10\n')        # a readable file that names no safe metrics at all
             else:
                 f.write('# generated\nsafe_metrics:\n' + ''.join(f'  - "{e}"\n' for e in entries) if entries else 'safe_metrics: []\n')
         env['OF_SAFE_METRICS_FILE'] = path
         if src in ('file', 'both'):
             expected = set(entries)           # the file takes precedence over the environment variable
-        elif src == 'file_empty':
-            expected = set()
+        elif src in ('file_empty', 'file_empty_env', 'file_nokey_env'):
+            expected = set()                  # a readable file wins over the environment variable, also when it lists nothing: lock-down
+        elif src == 'file_broken_env':
+            pass                              # unreadable file -> falls through to the environment variable (expected set above)
         else:
             expected = set()                  # unreadable file -> falls through to env (absent) -> lock-down
     return expected
